@@ -5,6 +5,8 @@ import GocoinV.Proofs.C19Log
 namespace GocoinV.Proofs.C19
 open GocoinV GocoinV.Qdb GocoinV.QdbSpec
 
+variable {eg : Bool}
+
 /-- the result of sync's loop over the pending keys: new index, log entries, bytes appended to the data file -/
 def syncPlan (seq : Nat) : List (Key × Rec) → List Key → Nat → List (Key × Rec) × List LogEntry × Bytes
   | idx, [], _ => (idx, [], [])
@@ -35,7 +37,7 @@ def syncRest (seq : Nat) (db : DB) :=
 
 theorem syncKey_exact_some (d : DB) (bidx : Bytes) (k : Key) (rc : Rec) (v f : Bytes)
     (hf : d.failed = none) (hl : ilookup k d.index = some rc) (hd : rc.data = some v)
-    (hnc : hasFlag rc.flags NO_CACHE = false)
+    (hnc : hasFlag rc.flags (ncOf d.eager) = false)
     (hfile : dlookup d.dataSeq d.fs.dats = some f) (hpos : d.lastPos = f.length) :
     ∃ d', syncKey (d, bidx) k = (d', bidx ++ encRec k { rc with pos := u32 d.lastPos, seq := d.dataSeq }) ∧
       d'.index = iset k { rc with pos := u32 d.lastPos, seq := d.dataSeq } d.index ∧
@@ -51,7 +53,8 @@ theorem syncKey_exact_some (d : DB) (bidx : Bytes) (k : Key) (rc : Rec) (v f : B
   · unfold syncKey
     simp only [hf, hl]
     unfold syncRec
-    simp only [hnc, Bool.false_eq_true, ↓reduceIte]
+    have hee : (emit d "qdb.sync:data-written" (.writeDat d.dataSeq d.lastPos v)).eager = d.eager := rfl
+    simp only [hee, hnc, Bool.false_eq_true, ↓reduceIte]
     rfl
   · rfl
   · show dlookup d.dataSeq (d.fs.apply (.writeDat d.dataSeq d.lastPos v)).dats = _
